@@ -774,6 +774,10 @@ def run(res, tier):
     res.rule("C10.5 the shift decision (NeedToShift) is true exactly under the per-dimension conditions that give a non-zero shift coefficient (GetShiftCoef), both cover all dimensions, -W below 0 / +W beyond the limit")
     res.rule("C10.6 tiling: with the height, windows, cores, child position and level loops read from the code, the core of each virtual level is exactly the region the finer levels and the near field have already covered and the final region is the reported repetition interval, for n = 0..10 extra levels (one-dimensional argument in units of the original box; windows and cores are cubes)")
     shift_agreement(facts, res)
+    res.rule("C10.7 shifted copies private: no function the numerical kernels' operators reach (the periodic shifter in particular) keeps a mutable static local that is not thread_local - the shifted image of a source leaf must belong to the task that asked for it, whatever the executor")
+    import c05
+    for kcls in ("FUnifKernel", "FRotationKernel"):
+        c05.operator_static_locals(facts, res, kcls, "C10.7.shifted-copies-private")
     morton_nb = morton_interactions(facts)
     res.instance("C10.2.window-extent", "getNbInteractionsPerCell", "src/spacial/tbfmortonspaceindex.hpp", "%d^Dim - %d^Dim" % morton_nb)
     summ = {}
